@@ -26,6 +26,11 @@ pub fn eval(p: &Prog, which: u32) -> (String, Option<String>, bool, u64) {
             return (line, if which == 17 { Some(format!("panic at {}", s)) } else { None }, true, fuel);
         }
     };
+    // outside the property (a replayed / shrunk case line that lost a domain): not judged
+    if !fd_well_formed(p) {
+        if std::env::var("PV_WF_DEBUG").is_ok() { eprintln!("NOTWF {}", p.line()); }
+        return (line, None, false, fuel);
+    }
     let (wlo, whi) = window(&p.body);
     // a query variable bound to a list / compound term of FD variables: `q == S(x1..xn)` as the first goal
     if let Some(PG::Eq(T::Var(0), s)) = p.body.first() {
